@@ -226,6 +226,85 @@ func (e *Env) objFields(recvT, name string, want []string) {
 	})
 }
 
+// extrasDeferredOwnFile: node-valued Decl/Data of objects are restored after the file, from the
+// tables nodeDecl/nodeData. An object met in this file may be declared in another file of the
+// package (every cross-file call): its declaration must not be rendered into this file — it gets
+// positions of this file and is registered in the restorer's node maps, and restoring the file it
+// belongs to then stops with "duplicate node" (or, with a restorer per file, the graph is split).
+// Each deferred restore must therefore look the node up first (r.Ast.Nodes) or be limited to the
+// nodes of the file being restored.
+func (e *Env) extrasDeferredOwnFile() {
+	pkg := e.Prog.Pkg(load.PkgDecorator)
+	c := e.Sib.Ctx[load.PkgDecorator]
+	info := pkg.TypesInfo
+	rf := load.FuncDecl(pkg, "FileRestorer", "RestoreFile")
+	if rf == nil || rf.Body == nil {
+		return
+	}
+	flat := c.FlattenBody(rf.Body.List)
+	c.Subst = nil
+	// … and the restorer methods called from inside those statements (the pass may sit in a
+	// helper called under `if r.Extras`)
+	var roots []ast.Node
+	seen := map[*ast.FuncDecl]bool{rf: true}
+	for _, st := range flat {
+		roots = append(roots, st)
+		ast.Inspect(st, func(nd ast.Node) bool {
+			if call, ok := nd.(*ast.CallExpr); ok {
+				if fn := c.Callee(call); fn != nil && fn.Pkg() == pkg.Types && fn.Name() != "restoreNode" {
+					for _, d := range load.AllFuncDecls(pkg) {
+						if info.Defs[d.Name] == types.Object(fn) && d.Body != nil && d.Recv != nil && !seen[d] && len(d.Body.List) <= 12 {
+							seen[d] = true
+							roots = append(roots, d.Body)
+						}
+					}
+				}
+			}
+			return true
+		})
+	}
+	n := 0
+	for _, st := range roots {
+		ast.Inspect(st, func(nd ast.Node) bool {
+			rs, ok := nd.(*ast.RangeStmt)
+			if !ok {
+				return true
+			}
+			mt, ok := info.TypeOf(rs.X).Underlying().(*types.Map)
+			if !ok {
+				return true
+			}
+			if _, kn := namedOf(mt.Key()); kn != "Object" {
+				return true
+			}
+			restores := false
+			guarded := false
+			ast.Inspect(rs.Body, func(m ast.Node) bool {
+				if call, ok := m.(*ast.CallExpr); ok {
+					if se, ok := call.Fun.(*ast.SelectorExpr); ok && se.Sel.Name == "restoreNode" {
+						restores = true
+					}
+				}
+				if ix, ok := m.(*ast.IndexExpr); ok && strings.HasSuffix(types.ExprString(ix.X), "Ast.Nodes") {
+					guarded = true
+				}
+				if _, ok := m.(*ast.IfStmt); ok {
+					guarded = true
+				}
+				return true
+			})
+			if !restores {
+				return true
+			}
+			n++
+			e.Run.Check("R-EXTRAS", fmt.Sprintf("RestoreFile: deferred %s nodes of other files are not rendered into this file", types.ExprString(rs.X)), e.Prog.Pos(rs.Pos()), guarded,
+				"every deferred node is restored here unconditionally: the declaration of an object that another file of the package declares (any cross-file reference after ast.NewPackage / dst.NewPackage) is rendered into this file's position space and registered, and restoring its own file then panics with \"duplicate node\"")
+			return true
+		})
+	}
+	e.Run.Floor("R-EXTRAS", "deferred restores in RestoreFile", n, 1)
+}
+
 // extrasGate: restoreObject/restoreScope return nil first when Extras is off.
 func (e *Env) extrasGate(name string) {
 	pkg := e.Prog.Pkg(load.PkgDecorator)
@@ -275,6 +354,7 @@ func init() {
 		e.objFields("FileRestorer", "restoreScope", []string{"Outer", "Objects"})
 		e.extrasGate("restoreObject")
 		e.extrasGate("restoreScope")
+		e.extrasDeferredOwnFile()
 		e.RSym()
 		e.twinConstants("ObjKind")
 		var pairs []forkPair
